@@ -4,7 +4,7 @@ ENGINES = [
     {
         "name": "symx",
         "path": "/verif/symx",
-        "serves_properties": ["C07"],
+        "serves_properties": ["C04", "C07"],
         "kind_free_text": "own symbolic executor: geoh5py's real functions run under CPython with the module-global "
         "`np` (and, for file paths, `h5py`) rebound to z3-backed models; re-execution DFS forks on symbolic "
         "branches; obligations are z3 validity queries; counterexamples are replayed on real numpy/h5py",
@@ -24,7 +24,30 @@ NOTES = (
 )
 
 # property id -> dict(engine, level_text, level_note, technique, design_ref)
+_SYMX_NOTE = (
+    "trusted: the symx numpy model (validated on every run by replaying a model of each explored path on real numpy "
+    "and comparing outcome, obligations and observed arrays), floats as mathematical reals, the seam that cuts the "
+    "HDF5 write, z3; holds only within the shape bounds written in the evidence file"
+)
+
+
+def _symx(section, technique, text, note=_SYMX_NOTE):
+    return {"engine": "symx", "technique": technique, "level_text": text, "level_note": note,
+            "design_ref": f"DESIGN.md section 5, {section}"}
+
+
 CLAIMED = {
+    "C04": _symx(
+        "C04",
+        "bounded symbolic execution of the real Concatenator index/data update code from an arbitrary valid layout "
+        "(one inductive step); z3 validity queries; counterexamples replayed on real numpy",
+        "bounded symbolic model checking of one inductive step: from every index layout satisfying the representation "
+        "invariant (rows disjoint inside the array; Start indices symbolic) the real values setter / "
+        "workspace.remove_entity / parent.remove_children run symbolically and z3 proves that other holes read back "
+        "their old values, the target reads back the new ones, and the invariant (exact tiling, one row per live "
+        "data set, no stale/duplicate/negative/wrapped entry) holds again. Shapes (holes, sizes, new length) are "
+        "enumerated within stated bounds.",
+    ),
     "C07": {
         "engine": "symx",
         "technique": "bounded symbolic execution of the real remove_vertices/remove_cells/values-setter code on a "
@@ -62,7 +85,6 @@ NOT_APPLICABLE = {
     "C20": "partner linkage is identity bookkeeping in metadata dictionaries persisted as JSON; configurations x "
     "histories over an object graph, no value-level kernel",
     "C03": _NOT_BUILT,
-    "C04": _NOT_BUILT,
     "C06": _NOT_BUILT,
     "C08": _NOT_BUILT,
     "C13": _NOT_BUILT,
